@@ -660,21 +660,21 @@ class Dual:
                 self.c.assume(core.b_or(x.nan, x.r <= hi))
             rec(self.c, name, x)
             return x
-        return float(self.inputs[name])
+        return float(self.inputs.get(name, 0.0 if lo is None else lo))
 
     def integer(self, name, lo, hi):
         if self.sym:
             x = core.fresh_int(name, lo, hi)
             rec(self.c, name, x)
             return x
-        return int(self.inputs[name])
+        return int(self.inputs.get(name, lo))
 
     def choose(self, name, options):
         if self.sym:
             v = self.c.choose([(o, True) for o in options], name)
             rec(self.c, name, v)
             return v
-        return self.inputs[name]
+        return self.inputs.get(name, options[0])
 
     def arr(self, rows, dtype=float, shape=None):
         if self.sym:
